@@ -471,3 +471,18 @@ def _replay_hist_from_catalog():
                 "expected": exp.tolist()}
     finally:
         shutil.rmtree(tmp, ignore_errors=True)
+
+
+# ---------------------------------------------------------------------------------------------------------
+# the redshift estimate: sample k is built from sample k of every ingredient (the C04 units on the same functions)
+# ---------------------------------------------------------------------------------------------------------
+
+def _register_nz_units():
+    from . import C04 as _C04
+    unit(P, "RedshiftData.from_corrdata", fuc=["yaw.redshifts:RedshiftData.from_corrdata"],
+         cases=[dict(ref=r, unk=u) for r in (False, True) for u in (False, True)], trusted=["np.tile+reshape identity"])(_C04.u_from_corrdata)
+    unit(P, "RedshiftData.from_corrfuncs", fuc=["yaw.redshifts:RedshiftData.from_corrfuncs"],
+         cases=[dict(ref=r, unk=u) for r in (False, True) for u in (False, True)])(_C04.u_from_corrfuncs)
+
+
+_register_nz_units()
